@@ -247,3 +247,42 @@ def expected_rdflib(case):
         return {T.norm_stmt([T.rdflib_canon(t) for t in s]) for s in case["statements"]}
     cont = rdflib_container(case["statements"], case["phys"])
     return {T.norm_stmt(s) for s in pyj.sink_events(cont, "rdflib")}
+
+
+# ==================================================================== E-driven streams
+EXOTIC = ["non_sequential_slot", "evict_while_free", "odd_split", "explicit_id_where_zero_possible",
+          "explicit_name_where_zero_possible", "explicit_prefix_where_zero_possible", "early_entry",
+          "redundant_entry", "unelided_repeat", "empty_frame", "repeated_options", "duplicate_value_slots",
+          "split_same_graph", "empty_prefix_via_zero"]
+
+ns_names = st.one_of(st.sampled_from(["", "ex", "a", "ü", "rdf", "x1"]), st.text(max_size=5))
+ns_iris = st.one_of(st.sampled_from(gen.PREFIXES), st.builds(lambda p, l: p + l, st.sampled_from(gen.PREFIXES),
+                                                              st.sampled_from(gen.LOCALS)))
+
+
+@st.composite
+def e_case(draw, mode=None, max_len=12, with_namespaces=True, phys=None, delimited=None):
+    phys = phys or draw(st.sampled_from(["TRIPLES", "QUADS", "GRAPHS"]))
+    mode = mode or draw(st.sampled_from(["gen", "rdflib", "rdflib"]))
+    stmts = draw(gen.statement_seq(arity=3 if phys == "TRIPLES" else 4, mode=mode, max_len=max_len))
+    nss = []
+    if with_namespaces and draw(st.integers(0, 2)) == 0:
+        n = draw(st.integers(1, 3))
+        for _ in range(n):
+            # rdflib's namespace manager refuses some prefix strings (e.g. with spaces): precondition
+            name = draw(ns_names if mode != "rdflib" else st.sampled_from(["", "ex", "a", "rdf", "x1", "ns2"]))
+            nss.append([draw(st.integers(0, len(stmts))), name, draw(ns_iris)])
+    sizes = draw(gen.preset_for(stmts, extra_iris=1 if nss else 0, count_string=True))
+    case = {
+        "phys": phys,
+        "mode": mode,
+        "statements": stmts,
+        "namespaces": nss,
+        "sizes": sizes,
+        "version": 2 if nss else draw(st.sampled_from([1, 1, 2])),
+        "logical": draw(st.sampled_from([0, 0] + ([1, 3, 13] if phys == "TRIPLES" else [2, 4, 14, 114]))),
+        "stream_name": draw(gen.stream_names),
+        "delimited": draw(st.integers(0, 4)) != 0 if delimited is None else delimited,
+        "tape": draw(st.lists(st.integers(0, 255), max_size=60)),
+    }
+    return case
